@@ -806,7 +806,8 @@ func (t *tr) specCall(c *ast.CallExpr, sc *specCtx) Term {
 		name := "faddr$" + typeKey(named) + "." + se.Sel.Name
 		t.V.W.declFun(name, []string{SInt}, SInt)
 		t.V.W.declFun(name+"~inv", []string{SInt}, SInt)
-		t.V.W.addAxiom(name, fmt.Sprintf("(forall ((p Int)) (! (and (< (%s p) 0) (= (%s (%s p)) p)) :pattern ((%s p))))", sym(name), sym(name+"~inv"), sym(name), sym(name)))
+		t.V.W.declFun("faddr~tag", []string{SInt}, SInt)
+		t.V.W.addAxiom(name, fmt.Sprintf("(forall ((p Int)) (! (and (< (%s p) 0) (= (%s (%s p)) p) (= (faddr~tag (%s p)) %d)) :pattern ((%s p))))", sym(name), sym(name+"~inv"), sym(name), sym(name), faddrTag(name), sym(name)))
 		r := app(sym(name), SInt, base)
 		r.T = types.NewPointer(st.Field(idx).Type())
 		return r
